@@ -86,6 +86,13 @@ method calls on local builtin containers are not relation events (`_plain_contai
 constant / clamped without the shift (insert_index); `L[i], L[j] = L[j], L[i]` on the children list (reorder).  Made UNDECIDED
 because not positive: attach only for non-members with the list edited directly (insert); mirror update through the other task's
 own list facade (dependency setters).  Left undecided: element-wise stores through a temporary in reorder; dict-based picks.
+
+Round 6: a mirror-facade call / mirror property store (`v.predecessors.remove(self)`) made for every element of the LIVE own list is
+refuted when the callee (transitively) edits that very field in place - the re-entrant setter shrinks the list under the loop; over
+a copy or over the argument it stays UNDECIDED.  A mirror list rebuilt by an id comparison is refuted.  remove_all: `q if q else
+<empty>` is the matches; a filtered subset of the query, or a value returned on a path without any removal, is refuted; other
+unrecognised return expressions are UNDECIDED.  `A if c else A` left by element-wise tuple splices is simplified; `tuple(x)` as a
+loop source is x; WBS.__floordiv__ may hold the delegation result in a local.
 """
 from __future__ import annotations
 
@@ -656,10 +663,17 @@ class _GetattrFold(ast.NodeTransformer):
                 return ast.copy_location(ast.Attribute(value=n.args[0], attr=nm.value, ctx=ast.Load()), n)
         return n
 
+    def visit_IfExp(self, n):
+        n = self.generic_visit(n)
+        if same(n.body, n.orelse):
+            return n.body       # `(A, x) if c else (A, y)` taken apart element-wise leaves `A if c else A`
+        return n
+
 
 def _fold_getattr(e, a=None, f=None):
     """`getattr(x, 'name')` with a literal name (or a class-level constant of the analysed class) reads `x.name`"""
-    if e is None or not any(isinstance(n, ast.Call) and isinstance(n.func, ast.Name) and n.func.id == 'getattr' for n in ast.walk(e)):
+    if e is None or not any((isinstance(n, ast.Call) and isinstance(n.func, ast.Name) and n.func.id == 'getattr') or
+                            (isinstance(n, ast.IfExp) and same(n.body, n.orelse)) for n in ast.walk(e)):
         return e
     import copy
     return _GetattrFold(a, f).visit(copy.deepcopy(e))
@@ -1448,8 +1462,9 @@ def delegation_operators(a: A, ctx):
                 o.refute(f, evs[0].node, evs[0].node, f"{what}: does not delegate to the sentinel's `//`")
         else:
             r, v, m = hit
+            held = resolve(f, r.value, cfg_of(f).node_of(r))[0] if r.value is not None else None
             for e in evs:
-                if any(x is e.node for x in ast.walk(r)):
+                if any(x is e.node for x in ast.walk(r)) or (held is not None and any(x is e.node for x in ast.walk(held))):
                     e.used = True
             if not a.is_self_attr(f, m['r'], ROOT):
                 o.refute(f, r, r.value, f"{what}: delegates to `{src(m['r'])}` instead of the sentinel root")
@@ -1908,8 +1923,36 @@ def delegation_remove_all(a: A, ctx):
                         o.undecided(f, r, r, f"{what}: returns an empty list on a path the rule cannot tie to an empty query result")
                     bad = True
                     continue
-                o.refute(f, r, r, f"{what}: returns `{src(r.value) if r.value is not None else None}` instead of the removed tasks "
-                                  f"(all matches of the query)")
+                if isinstance(v, ast.IfExp):
+                    def empty(x):
+                        return bool(match("_ImmutableTaskList([])", x) or match("[]", x) or match("_ImmutableTaskList(list())", x))
+
+                    def the_query(x):
+                        x0, xn, _ = resolve(f, x, rn)
+                        return x0 is not None and xn is itn and same(x0, it)
+                    tst, tp_ = strip_not(v.test, True)
+                    q_arm, e_arm = (v.body, v.orelse) if tp_ else (v.orelse, v.body)
+                    if the_query(q_arm) and empty(e_arm) and not says_empty(tst, True, v.test) and \
+                            (is_query(tst, rn) or says_empty(tst, False, v.test)):
+                        continue        # `matches if matches else <empty list>`: the matches, or an empty list when there are none
+                inner_v = v
+                mw = match("_ImmutableTaskList($x)", v) if v is not None else None
+                if mw:
+                    inner_v = mw['x']
+                tv = norm_list(inner_v) if inner_v is not None else ('ref', None)
+                if tv[0] == 'filter' and tv[3] and is_query(tv[1], rn):
+                    o.refute(f, r, r, f"{what}: returns only the matches that satisfy `{src(tv[3][0])[:60]}`; documented: the removed tasks "
+                                      f"= ALL matches of the query")
+                elif not any(e.cn is rn or cfg.can_reach(e.cn, rn) for e in rem) and \
+                        not any(says_empty(at, pol, tst) for at, pol, tst in _raw_atoms(f, rn)):
+                    o.refute(f, r, r, f"{what}: returns `{src(r.value)[:60] if r.value is not None else None}` on a path on which no task was "
+                                      f"removed through the single-task removal (and the query is not known to be empty there)")
+                elif r.value is None or isinstance(v, (ast.Constant, ast.List, ast.Tuple, ast.Dict)) or \
+                        (isinstance(v, ast.Name) and v.id in f.params):
+                    o.refute(f, r, r, f"{what}: returns `{src(r.value) if r.value is not None else None}` instead of the removed tasks "
+                                      f"(all matches of the query)")
+                else:
+                    o.undecided(f, r, r, f"{what}: cannot tell that `{src(r.value)[:60]}` is the list of removed tasks")
                 bad = True
             if not bad and a.must_pass(o, f, rem, noops, what) and a.leftovers(o, f, what) == 0:
                 o.site(f, rem[0].node, f"for {src(fo.target)} in {src(it)}: {src(rem[0].node)}")
@@ -1976,6 +2019,10 @@ def classify_list(a: A, f, e, at, i=1):
                     return inner
     if is_arg(a, f, e, at, i):
         return ('arg',)
+    mt = match("tuple($x)", e)
+    if mt:
+        inner = classify_list(a, f, mt['x'], at, i)     # the same elements in the same order (only read by the loop)
+        return ('copy', inner[1], at) if inner[0] == 'live' else inner
     if isinstance(e, ast.Call) and isinstance(e.func, ast.Name) and e.func.id in ORDER_BREAKERS and e.args and \
             is_arg(a, f, e.args[0], at, i):
         return ('arg-reordered', e.func.id)
@@ -2390,6 +2437,13 @@ def dependency_setters(a: A, ctx):
                 elif w.kind == 'mutate:insert':
                     o.refute(f, w.node, w.node, f"{what}: self is inserted into the mirror list at a position; documented (and what "
                                                 f"the mirror facade's append does): appended last")
+                    bad = True
+                elif w.kind == 'store' and isinstance(w.node, ast.Assign) and norm_list(w.node.value)[0] == 'filter' and \
+                        norm_list(w.node.value)[2] and any(cmp_kind(c0, norm_list(w.node.value)[2], ast.Name(id=f.self_name, ctx=ast.Load()))
+                                                           in ('id-ne', 'id-eq') for c0 in norm_list(w.node.value)[3]):
+                    o.refute(f, w.node, w.node, f"{what}: self is taken out of the mirror list by comparing ids (`{src(w.node.value)[:70]}`): "
+                                                f"every task carrying an equal id (a clone, a task of another WBS) is unlinked too; decide "
+                                                f"on the task object")
                     bad = True
                 else:
                     o.undecided(f, w.node, w.node, f"{what}: mirror list edited with `{w.kind}`")
@@ -4028,7 +4082,7 @@ def insert_index(a: A, ctx):
                                        f"of the list): index len(list) finds the task itself and earlier indexes are shifted for a task "
                                        f"that was already in the list")
             return
-        an = a.X(f).expand(anchor_arg, m_ev.cn)
+        an = _fold_getattr(a.X(f).expand(anchor_arg, m_ev.cn), a, f)
         # conditions of the move: only `anchor is not None` (or, for an anchor subscripted in place, the bound test itself)
         bound_tests = []
         for atm, pol, _ in _raw_atoms(f, m_ev.cn):
